@@ -18,6 +18,15 @@ _WS_RX = [
 ]
 _CS_WS = cs.WSWRITE + cs.WSCLOSE + _WS_RX
 
+# HTTP side (OwnBody): a Parse call and CloseAndClean are each ONE hold of the parser mutex (the twin's `parse` and
+# `closeAndClean` are atomic steps; the handler works on objects handed over to it: docs/resp.md §10 C11/3)
+_CS_HTTP = [
+    cs.pred("http_parse_cache_locked", "nbhttp/parser.go", "nbhttp.Parser.Parse",
+            guarded={"recv.mux": ["recv.bytesCached", "recv.state"]}),
+    cs.pred("http_close_and_clean_locked", "nbhttp/parser.go", "nbhttp.Parser.CloseAndClean",
+            guarded={"recv.mux": ["recv.bytesCached", "recv.state"]}, held_calls={"recv.mux": ["recv.Processor.Close"]}),
+]
+
 RESP_RUN = {"harness": "hresp", "driver": "respdrv",
             "fields": ["n", "err", "w", "head", "hdr", "rest", "trl", "close"], "corpus": "resp",
             "quick": {"n": 175, "shards": 16}, "thorough": {"n": 3200, "shards": 32}}
@@ -31,7 +40,7 @@ PROPS = {
                     "tied to the code by differential execution of generated handler programs through the real Parser -> handler -> "
                     "flushResponse path, plus a net/http.ReadResponse decoding oracle on the implementation alone",
             "note": "model fidelity is sampled (differential run on every check); Sane excludes handler errors (see docs/resp.md); "
-                    "ReadFrom is proved for the ServeContent shape only; every theorem except c09_write_returns_len "
+                    "ReadFrom is proved for identity framing (ServeContent shape and after earlier writes); every theorem except c09_write_returns_len "
                     "assumes a conn that accepts the writes; HEAD is finding resp-head-body",
             "technique": "Lean 4 proof (invariant over op sequences) + differential correspondence + independent decoder oracle"},
         "lean": ["NbioVerif.Properties.C09"], "drivers": ["respdrv"], "harness": ["hresp"],
@@ -56,16 +65,23 @@ PROPS = {
             "note": "ws cases drive real websocket.Conn objects over a gated conn (the sender goroutine of the async send queue is "
                     "stepped deterministically); harness/internal/track is shared with hws/hhttp/hconn",
             "technique": "Lean 4 proof (ownership invariant by induction over op sequences) + differential trace correspondence + tracking allocator"},
-        "lean": ["NbioVerif.Properties.C11"], "drivers": ["respdrv"], "harness": ["hresp"],
-        "runs": [dict(RESP_RUN, fields=["n", "err", "tr", "own", "rd", "cache", "q", "msg", "dl", "fl"])],
-        "oracles": ["c11-"], "cs": _CS_WS,
+        "lean": ["NbioVerif.Properties.C11"], "drivers": ["respdrv", "wsdrv"], "harness": ["hresp", "hws"],
+        "runs": [dict(RESP_RUN, fields=["n", "err", "tr", "own", "rd", "cache", "q", "msg", "dl", "fl"]),
+                 # the ws family's stream with the tracking allocator installed (compressed receive path, engine-level
+                 # upgrade, real message contents): the tracker's verdicts are the c11- oracles, the comparison with wsdrv
+                 # keeps the run honest (same fields as the ws family)
+                 {"harness": "hws", "driver": "wsdrv", "exec_args": ["-track"],
+                  "fields": ["err", "werr", "rerr", "berr", "recv", "back"], "corpus": "ws",
+                  "quick": {"n": 160, "shards": 8, "timeout": 400}, "thorough": {"n": 800, "shards": 16, "timeout": 3000}}],
+        "oracles": ["c11-"], "cs": _CS_WS + _CS_HTTP,
         "rule": "same stream as C09 (resp cases) plus body cases (segmented requests, handler reads, CloseAndClean) and conn cases (write "
                 "queue under scripted kernel answers) and ws cases (received segments with fragments/control frames/an invalid frame, "
                 "WriteMessage direct or through the async send queue with gated conn writes, write errors, CloseAndClean at any point); distinct by hash of (config, op-kind sequence with conn writes / parser state / "
                 "queue length per op); non-trivial iff a buffer changed hands: a conn write before the final flush, bytes left in the "
                 "parser cache, a non-empty write queue, a frame in flight in the sender goroutine, or bytes in the ws cache/message",
-        "assumptions": ["no lemma relates the byte-level model Resp to the twin Own: the driver evaluates the simulation relation "
-                        "Own.sim after every op and the owner fields (ids, lengths) are compared with the real Response",
+        "assumptions": ["the twins' theorems hold for ALL environment answers; the driver runs Own.step itself (an instance of Own.run) with the "
+                        "answers computed by the byte-level model Resp; no lemma relates Resp to Own (not needed for soundness): the driver "
+                        "evaluates the relation Own.sim after every op and the owner fields (ids, lengths) are compared with the real Response",
                         "HTTP side is sequential (handler inline): interleavings with an asynchronous handler are argued from "
                         "c11_response_frames_request + exclusive hand-over of request/response to the handler closure",
                         "reads/reslices of a pooled buffer leave no allocator event: their placement in the twins is untied "
